@@ -62,6 +62,7 @@ package appencryption
 // ---- C10: decrypted system / intermediate key bytes are wiped on every exit after they exist ----
 
 //@ func (*envelopeEncryption).systemKeyFromEKR
+//@   names e, ctx, ekr
 //@   facet C10, C02, C09
 //@   requires wfE(e) && ekr != nil
 //@   modifies ext_calls, mk_calls, lcalls, refused, live
@@ -73,6 +74,7 @@ package appencryption
 //@   ensures [C10:kms-plaintext-wiped] forall i int :: 0 <= i && i < len(ret(DecryptKey, 1, 0)) ==> ret(DecryptKey, 1, 0)[i] == 0
 
 //@ func (*envelopeEncryption).intermediateKeyFromEKR
+//@   names e, sk, ekr
 //@   facet C10, C02, C09
 //@   ensures [C09:references-balanced] forall k *cachedCryptoKey :: owed(k) == old(owed(k))
 //@   requires wfE(e) && sk != nil && ekr != nil
@@ -149,14 +151,17 @@ package appencryption
 //@ spec fn skid(s string, pr string) string = "_SK_" + s + "_" + pr
 
 //@ func (defaultPartition).IntermediateKeyID
+//@   names p
 //@   facet C06, C18
 //@   ensures [C06,C18:ik-id-format] result == ikid(p.id, p.service, p.product)
 
 //@ func (defaultPartition).SystemKeyID
+//@   names p
 //@   facet C06, C18
 //@   ensures [C06,C18:sk-id-format] result == skid(p.service, p.product)
 
 //@ func (defaultPartition).IsValidIntermediateKeyID
+//@   names p, id
 //@   facet C06
 //@   ensures [C06:accepts-exactly-own-id] result == (id == ikid(p.id, p.service, p.product))
 
@@ -164,14 +169,17 @@ package appencryption
 //@ lemma [C06:default-isolation] forall p string, q string, s string, pr string :: p != q ==> ikid(p, s, pr) != ikid(q, s, pr)
 
 //@ func (suffixedPartition).IntermediateKeyID
+//@   names p
 //@   facet C06, C18
 //@   ensures [C06,C18:ik-id-format] result == ikid(p.id, p.service, p.product) + "_" + p.suffix
 
 //@ func (suffixedPartition).SystemKeyID
+//@   names p
 //@   facet C06, C18
 //@   ensures [C06,C18:sk-id-format] result == skid(p.service, p.product) + "_" + p.suffix
 
 //@ func (suffixedPartition).IsValidIntermediateKeyID
+//@   names p, id
 //@   facet C06
 //@   ensures [C06:accepts-own-ids] (id == ikid(p.id, p.service, p.product) || id == ikid(p.id, p.service, p.product) + "_" + p.suffix) ==> result
 //@   ensures [C06:accepts-only-own-prefix] result ==> hasPrefix(id, ikid(p.id, p.service, p.product))
@@ -201,6 +209,7 @@ package appencryption
 //@ ghost var refused int counter
 
 //@ func (*envelopeEncryption).DecryptDataRowRecord
+//@   names e, ctx, drr
 //@   facet C06, C07, C09
 //@   safety C07
 //@   opt no-frame
@@ -209,6 +218,7 @@ package appencryption
 //@   ensures [C06:foreign-id-rejected-before-any-lookup] drr.Key != nil && drr.Key.ParentKeyMeta != nil && !validIK(e.partition, old(drr.Key.ParentKeyMeta.ID)) ==> err != nil && result == nil && ext_calls == old(ext_calls)
 
 //@ func (*SessionFactory).GetSession
+//@   names f, id
 //@   facet C06
 //@   opt no-frame
 //@   ensures [C06:empty-partition-refused] id == "" ==> err != nil && result == nil
@@ -249,6 +259,7 @@ package appencryption
 // ---- C07: no input record, metastore row or loader result makes the decrypt path panic ----
 
 //@ func (*envelopeEncryption).loadIntermediateKey
+//@   names e, ctx, meta
 //@   facet C07, C02, C14, C09
 //@   ensures [C09:references-balanced] forall k *cachedCryptoKey :: owed(k) == old(owed(k))
 //@   safety C07
@@ -263,6 +274,7 @@ package appencryption
 //@   ensures [C02:key-carries-requested-stamp] err == nil ==> result.created == meta.Created
 
 //@ func (*envelopeEncryption).loadSystemKey
+//@   names e, ctx, meta
 //@   facet C07, C02, C14, C09
 //@   ensures [C09:references-balanced] forall k *cachedCryptoKey :: owed(k) == old(owed(k))
 //@   safety C07
@@ -276,18 +288,21 @@ package appencryption
 //@   ensures [C02:key-carries-requested-stamp] err == nil ==> result.created == meta.Created
 
 //@ func decryptRow
+//@   names ik, drr, crypto
 //@   facet C07
 //@   safety C07
 //@   opt no-frame
 //@   requires ik != nil && crypto != nil
 
 //@ func (*Session).Decrypt
+//@   names s, ctx, d
 //@   facet C07
 //@   safety C07
 //@   opt no-frame
 //@   requires s != nil && s.encryption != nil
 
 //@ func (*Session).Load
+//@   names s, ctx, key, store
 //@   facet C07
 //@   safety C07
 //@   opt no-frame
@@ -319,6 +334,7 @@ package appencryption
 //@   requires wfE(e)
 
 //@ func (*envelopeEncryption).loadLatestOrCreateSystemKey
+//@   names e, ctx, id
 //@   facet C02, C14, C09, C04
 //@   ensures [C09:references-balanced] forall k *cachedCryptoKey :: owed(k) == old(owed(k))
 //@   requires wfE(e)
@@ -338,6 +354,7 @@ package appencryption
 //@   requires wfE(e)
 
 //@ func (*envelopeEncryption).createIntermediateKey
+//@   names e, ctx
 //@   facet C02, C14, C09, C04
 //@   ensures [C09:references-balanced] forall k *cachedCryptoKey :: owed(k) == old(owed(k))
 //@   requires wfE(e)
@@ -353,6 +370,7 @@ package appencryption
 //@   ensures [C02,C14,C01:backed] err == nil ==> result.secret != nil && valid(result.secret) && fresh(result.secret) && ms[ikidOf(e.partition)][result.created]
 
 //@ func (*envelopeEncryption).loadLatestOrCreateIntermediateKey
+//@   names e, ctx, id
 //@   facet C02, C14, C09, C04
 //@   ensures [C09:references-balanced] forall k *cachedCryptoKey :: owed(k) == old(owed(k))
 //@   requires wfE(e)
@@ -380,6 +398,7 @@ package appencryption
 //@   requires wfE(e)
 
 //@ func (*envelopeEncryption).EncryptPayload
+//@   names e, ctx, data
 //@   facet C02, C14, C09, C04
 //@   opt no-frame
 //@   requires wfE(e)
@@ -394,6 +413,7 @@ package appencryption
 // ---- key creation stamps (C14: racers inside one precision window collide on one (id, created); C04: never in the future) ----
 
 //@ func newKeyTimestamp
+//@   names truncate
 //@   facet C14, C04
 //@   ensures [C14:racers-in-one-window-collide] truncate > 0 ==> result == ((now() / int(truncate)) * int(truncate)) / 1000000000
 //@   ensures [C14:no-truncation-without-precision] truncate <= 0 ==> result == now() / 1000000000
@@ -440,6 +460,7 @@ package appencryption
 //@ spec fn ckc(k string) int64
 //@ axiom [cacheKey-injective] forall a string, x int64 :: ckid(ck(a, x)) == a && ckc(ck(a, x)) == x
 //@ func cacheKey
+//@   names id, create
 //@   trusted
 //@   pure
 //@   ensures result == ck(id, create)
@@ -458,6 +479,7 @@ package appencryption
 //@ immutable (keyCache).keys, (keyCache).latest, (keyCache).policy
 
 //@ func (*keyCache).GetOrLoad
+//@   names c, id, loader
 //@   facet C09, C02, C14, C07, C08, C20, C05
 //@   safety C07
 //@   opt no-frame
@@ -481,6 +503,7 @@ package appencryption
 //@   ensures [C02,C14:cache-returns-backed-key] err == nil ==> wfCK(result) && ms[id.ID][result.CryptoKey.created]
 
 //@ func (*keyCache).GetOrLoadLatest
+//@   names c, id, loader
 //@   facet C09, C02, C14, C07, C08, C20, C05, C04
 //@   safety C07
 //@   opt no-frame
@@ -506,6 +529,7 @@ package appencryption
 //@   ensures [C02,C14:cache-returns-backed-key] err == nil ==> wfCK(result) && ms[id][result.CryptoKey.created]
 
 //@ func (neverCache).GetOrLoad
+//@   names arg0, id, loader
 //@   facet C09, C02, C14, C07, C20
 //@   safety C07
 //@   opt no-frame
@@ -523,6 +547,7 @@ package appencryption
 //@   ensures [C02,C14:cache-returns-backed-key] err == nil ==> wfCK(result) && ms[id.ID][result.CryptoKey.created]
 
 //@ func (neverCache).GetOrLoadLatest
+//@   names arg0, id, loader
 //@   facet C09, C02, C14, C07, C04, C20
 //@   safety C07
 //@   opt no-frame
@@ -544,6 +569,7 @@ package appencryption
 // holds it (whose entry owns a reference, so refs >= 1 and the key cannot be destroyed), or a reference the caller owns ----
 
 //@ func (*cachedCryptoKey).increment
+//@   names c
 //@   facet C08, C09
 //@   requires [C08:increment-needs-pinned-ref] heldlocks >= 1
 //@   requires c != nil && c.refs != nil
@@ -562,6 +588,7 @@ package appencryption
 //@ spec fn owedSame(a map[ref]int, b map[ref]int) bool = forall k ref :: a[k] == b[k]
 
 //@ func (*cachedCryptoKey).Close
+//@   names c
 //@   facet C09, C08
 //@   safety C07
 //@   requires c != nil && c.refs != nil && c.CryptoKey != nil
@@ -571,6 +598,7 @@ package appencryption
 //@   ghost ensures [a key no cache holds is destroyed with its last reference] !old(cacheowned(c.CryptoKey.secret)) && old(owed(c)) == 1 ==> !live(c.CryptoKey.secret)
 
 //@ func newCachedCryptoKey
+//@   names k
 //@   facet C09, C08
 //@   ensures result != nil && fresh(result) && result.CryptoKey == k && result.refs != nil
 //@   ghost ensures owed(result) == old(owed(result)) + 1
@@ -581,6 +609,7 @@ package appencryption
 // ---- C05: after a reload the cache reflects what the loader (the metastore) said ----
 
 //@ func (*keyCache).load
+//@   names c, meta, loader
 //@   facet C05, C20
 //@   inline
 //@   opt no-frame
@@ -608,6 +637,7 @@ package appencryption
 // ---- C20: one system-key cache per factory (and one intermediate-key cache when sharing is enabled) ----
 
 //@ func newSession
+//@   names f, id
 //@   facet C20
 //@   opt no-frame
 //@   requires f != nil && f.Config != nil && f.Config.Policy != nil
@@ -629,6 +659,7 @@ package appencryption
 //@ spec fn wfShared(s *sharedEncryption) bool = s != nil && s.mu != nil && s.cond != nil && s.Encryption != nil && valid(s.mu)
 
 //@ func (*sharedEncryption).incrementUsage
+//@   names s
 //@   facet C16
 //@   safety C16
 //@   opt no-frame
@@ -639,6 +670,7 @@ package appencryption
 //@   ensures [taking-a-session-closes-nothing] encclosed(s.Encryption) == old(encclosed(s.Encryption))
 
 //@ func (*sharedEncryption).Close
+//@   names s
 //@   facet C16
 //@   safety C16
 //@   opt no-frame
@@ -649,6 +681,7 @@ package appencryption
 //@   ensures [closing-a-shared-session-keeps-the-underlying-session] encclosed(s.Encryption) == old(encclosed(s.Encryption)) && err == nil
 
 //@ func (*sharedEncryption).Remove
+//@   names s
 //@   facet C16
 //@   safety C16
 //@   opt no-frame
@@ -697,6 +730,7 @@ package appencryption
 //@ immutable (cacheWrapper).loader, (cacheWrapper).policy, (cacheWrapper).cache, (Session).encryption
 
 //@ func (*cacheWrapper).Get
+//@   names c, id
 //@   facet C16
 //@   safety C16
 //@   opt no-frame
@@ -714,6 +748,7 @@ package appencryption
 //@   modifies ext_calls, mk_calls, lcalls, refused, ms, owed, live, cacheowned
 //@   ensures err == nil ==> result != nil && valid(result) && fresh(result) && result.encryption != nil && (istype(result.encryption, *sharedEncryption) ==> wfShared(dyn(result.encryption, *sharedEncryption)) && *dyn(result.encryption, *sharedEncryption).mu == 0)
 //@ func newSessionCacheWithCache
+//@   names loader, policy, cache
 //@   facet C16
 //@   param loader plainSessionLoader
 //@   opt no-frame
@@ -747,6 +782,7 @@ package appencryption
 //@   ensures [C03:no-key-service-call-for-data] ncalls(EncryptKey) == 0 && ncalls(Store) == 0
 
 //@ func (*envelopeEncryption).tryStoreIntermediateKey
+//@   names e, ctx, ik, sk
 //@   facet C03
 //@   safety C03
 //@   opt no-frame
@@ -755,6 +791,7 @@ package appencryption
 //@   ensures [C03:stored-record-holds-the-wrapped-key-and-names-its-parent] ncalls(Store) == 1 && (ret(Store, 1, 0) == ret(Store, 1, 0) ==> arg(Store, 1, envelope).EncryptedKey == ret(Encrypt, 1, 0) && arg(Store, 1, envelope).ParentKeyMeta != nil && arg(Store, 1, envelope).ParentKeyMeta.ID == sysid(e.partition) && arg(Store, 1, keyID) == ikidOf(e.partition))
 
 //@ func (*envelopeEncryption).tryStoreSystemKey
+//@   names e, ctx, sk
 //@   facet C03
 //@   safety C03
 //@   opt no-frame
